@@ -335,7 +335,10 @@ void sx127x_fsk_ook_read_payload_batch(bool read_batch, sx127x *device) {
       if (code != SX127X_OK) {
         return;
       }
-      device->expected_packet_length--;
+      // a zero length byte announces no address byte either
+      if (device->expected_packet_length > 0) {
+        device->expected_packet_length--;
+      }
       remaining_fifo--;
     }
   }
